@@ -45,6 +45,7 @@ def run(chk):
     chk.rule("R3", "recursive leaf visitors (create_aliases, get_engine) reach the right child of every binary verb")
     chk.rule("R4", "alias: fresh identity for every column in scope unless keep_col_refs; transfer_col_references maps by checked name")
     chk.rule("R4v", "the alias verb interpreted on a stub table: new Alias node around the input node, name on the new node only, every column in scope (hidden included) gets a fresh distinct identity unless keep_col_refs")
+    chk.rule("R9a", "create_aliases interpreted on join / union trees with three occurrences of one source table: pairwise different SQL aliases, and the same aliases for a second statement built afterwards (no state survives a build)")
     chk.rule("R5", "collect preserves identities, derivation and grouping state, kind-correctly")
     chk.rule("R6", "each producer of Alias.uuid_map covers every key set that consumers index without a guard")
     chk.rule("R7", "Alias leaves the visible column sequence and the grouping sequence unchanged in all three siblings")
@@ -110,6 +111,20 @@ def run(chk):
                                 classes |= set(isinstance_classes(sym, mod, x.args[1]) or [])
         chk.ob("R3", mod, f, f"{f.name} reaches right of {sorted(classes & set(binary))}", set(binary) <= classes,
                f"`{f.name}` skips source tables below the right side of {sorted(set(binary) - classes)}")  # fmt: skip
+
+    # ---- R9a SQL aliases of the source tables, by interpretation of create_aliases
+    from ..interp import PyRaise as _PR9, SymbolicBranch as _SB9
+    from ..pipesim import RealWorld as _RW, alias_name_scenarios as _ans
+    from ..rules.c17 import m_types_env as _mte9
+
+    sqlm = repo.mod("backend.sql")
+    try:
+        for desc, ok_, detail in _ans(_RW(repo, _mte9(m))):
+            chk.ob("R9a", sqlm, sqlm.func("create_aliases"), f"create_aliases interpreted: {desc}", ok_, detail)
+    except (AnalysisError, _SB9) as e:
+        chk.undecided.append(f"R9a: create_aliases could not be interpreted ({str(e)[:140]})")
+    except _PR9 as p_:
+        chk.ob("R9a", sqlm, sqlm.func("create_aliases"), "create_aliases on stub trees", False, f"create_aliases raises {p_.name}: {p_.msg}")
 
     # ---- R4v: the alias verb interpreted on a stub table (tablesim); R4's reading of its spelling is the fallback
     from ..interp import PyRaise, SymbolicBranch
